@@ -128,7 +128,7 @@ def parseSConf (s : String) : Option SConf :=
 /-- `sfh c=<conf>~…;pr=<product hex>;m=…;p=…;ae=…;ec=…;t=<tree>` -/
 def runHistory (op impl : String) : Ans :=
   let bad : Ans := { model := "bad-op", verdict := "skip" }
-  match ((op.drop 4).toString.splitOn ";") with
+  match ((op.drop 4).toString.splitOn ";").take 7 with
   | [c, pr, m, p, ae, ec, t] =>
     match (kv c "c").bind (fun s => (s.splitOn "~").mapM parseSConf), (kv pr "pr").bind bytesOfHex,
           (kv m "m").bind bytesOfHex, (kv p "p").bind bytesOfHex, (kv ae "ae").bind String.toNat?, kv ec "ec",
